@@ -297,7 +297,7 @@ def gen_dataset(rng, cfg):
         q = [rng.choice(SUBJ), rng.choice(PRED), rng.choice(OBJ if rng.random() < 0.8 else [20, 21, 22]), g]
         if q[1] == 12:
             q[2] = rng.choice([28, 28, 29]) if rng.random() < 0.7 else q[2]
-        if rng.random() < 0.15 and quads:                   # same triple in a second graph
+        if rng.random() < 0.25 and quads:                   # same triple in a second graph
             q = quads[rng.randrange(len(quads))][:3] + [g]
         if q not in quads:
             quads.append(q)
@@ -389,6 +389,10 @@ def gen_read(rng, cfg, quads, kind=None):
                     "get_graph", "default", "len_ctx", "iter_ds", "triples_choices_ctx", "aggregate", "store_contexts",
                     "agg_len", "agg_contains", "agg_triples", "agg_quads"])
     q = some()
+    # a triple held by several graphs: quads((s, p, o, g)) / aggregates / membership behave differently there
+    shared = [x for x in quads if sum(1 for y in quads if y[:3] == x[:3]) > 1]
+    if shared and rng.random() < (0.85 if f == "quads" else 0.5):
+        q = rng.choice(shared)
     pat = [q[0] if rng.random() < 0.6 else None, q[1] if rng.random() < 0.6 else None,
            q[2] if rng.random() < 0.6 else None]
     g = q[3] if rng.random() < 0.6 else gsel()
